@@ -417,9 +417,7 @@ def judge(chk: Check, case: dict[str, Any], r: Any, new_inv: list[Any]) -> None:
             pass
     wit["origin"] = origin
     # ---- status -----------------------------------------------------------
-    status_bad = False
     if hs.is_5xx(r.status):
-        status_bad = True
         chk.violation(
             f"status_5xx:{route}:body={BODY_GROUP.get(case['body_kind'], case['body_kind'])}:token={case['token_kind']}",
             f"client-controlled input produced HTTP {r.status} (defects [{sig}])",
@@ -427,14 +425,12 @@ def judge(chk: Check, case: dict[str, Any], r: Any, new_inv: list[Any]) -> None:
         )
     elif r.status == 200 and not new_inv and (not case.get("describe") or origin.startswith("arrow_error")):
         # nothing was dispatched: the request was refused, but reported as 200
-        status_bad = True
         chk.violation(
             f"unexpected_status:{route}:got_200:refused_as_server_error:body={'malformed' if defects & {'ipc_malformed', 'encoding_corrupt'} else BODY_GROUP.get(case['body_kind'], case['body_kind'])}",
             f"request refused without dispatch but answered 200 ({origin}); the mapping admits {sorted(adm - {200}) or sorted(adm)} for defects [{sig}]",
             wit,
         )
     elif r.status not in adm:
-        status_bad = True
         if falcon_level:
             key = f"unexpected_status:got_{r.status}:{origin}:ce={case['ce_kind']}"
         else:
